@@ -51,7 +51,8 @@ THEOREMS = ["Wtf.C07." + t for t in (
     "no_override", "fallback_only_when_nothing", "accepts_iff_subseq", "refinement", "target_nul_free", "eqFold_laws", "no_panic",
     "genuine", "best_first", "best_first_normalised", "complete", "empty_query_no_fallback", "normMono", "best_first_reported",
     # Props/C07c.lean: SortOK discharged by the model of Go's sort.Stable (Model/GoSort.lean, Proofs/GoSort.lean)
-    "sortOK_of_goStable", "sortOK_modelledTuning", "genuine_sorted", "best_first_sorted", "best_first_reported_sorted", "complete_sorted")]
+    "sortOK_of_goStable", "sortOK_modelledTuning", "genuine_sorted", "best_first_sorted", "best_first_reported_sorted", "complete_sorted",
+    "fallback_tie_order", "fuzzy_sort_closed_form")]
 
 ASSERTIONS = ["c07:fallback-sites", "c07:normalize-on-entry", "c07:threshold", "c07:cap", "c07:nul-guard", "c07:matcher-call",
               "c07:fuzzy-version", "c04:fuzzy-gate"]
